@@ -1,6 +1,9 @@
 """Constants of /repo the C17 theorems depend on -> coq/Gen/C17.v (regenerated on every run, fail-closed).
 
  * default_allowed / default_forbidden: app_settings.defaults.static_files_allowed / static_files_forbidden
+ * generator_error: "" normally; if the defaults are not lists of suffix strings (or anything else has an unexpected shape) the
+   error text is recorded here, the DOCUMENTED defaults are emitted instead, and `Example generator_anchor` fails: a broken proof
+   obligation, never a crash - the run continues to the direct oracle, which judges default settings by the documented lists.
  * suffix_regex_probe: the regex TEXT that finders._is_path_valid compiles for the probe suffix ".a$b", observed by
    temporarily replacing the name `re` inside django_components.finders with a recording shim (no source hook).
    Finder/Proofs.v anchors it with `Example suffix_regex_anchor`, so an edit of the suffix->regex conversion breaks a
@@ -13,16 +16,57 @@ import common as C
 
 PROBE = ".a$b"
 
+# fall-back copy of the DOCUMENTED defaults (used only if the defaults object has an unexpected shape AND its docstrings cannot be parsed)
+PINNED_ALLOWED = [".css", ".js", ".jsx", ".ts", ".tsx", ".apng", ".png", ".avif", ".gif", ".jpg", ".jpeg", ".jfif", ".pjpeg", ".pjp", ".svg",
+                  ".webp", ".bmp", ".ico", ".cur", ".tif", ".tiff", ".eot", ".ttf", ".woff", ".otf", ".svg"]
+PINNED_FORBIDDEN = [".html", ".django", ".dj", ".tpl", ".py", ".pyc"]
+_CACHE = {}
+
+
+def documented_defaults():
+    """The default suffix lists as DOCUMENTED in the docstrings of ComponentsSettings.static_files_allowed / _forbidden
+    ("A list of file extensions (including the leading dot)" ... "By default ...: ```python COMPONENTS = ComponentsSettings(...)```")."""
+    import inspect
+    from django_components import app_settings
+    out = []
+    try:
+        src = inspect.getsource(app_settings)
+    except Exception:  # noqa
+        src = ""
+    for name, pinned in (("static_files_allowed", PINNED_ALLOWED), ("static_files_forbidden", PINNED_FORBIDDEN)):
+        m = _re.search(r"```python\s+COMPONENTS = ComponentsSettings\(\s+%s=\[(.*?)\]" % name, src, flags=_re.S)
+        lst = _re.findall(r'"([^"\n]*)"', m.group(1)) if m else []
+        out.append(lst if lst else list(pinned))
+    return out[0], out[1]
+
+
+def default_lists():
+    """-> (allowed, forbidden, error). The lists of /repo's `defaults` object when they are lists of suffix strings (error '');
+    otherwise the DOCUMENTED suffix lists plus an error text: the run goes on (direct oracle against the documented defaults)
+    and the error text makes `Example generator_anchor` of Finder/Proofs.v fail (broken proof obligation) - never a crash."""
+    if "v" not in _CACHE:
+        from django_components.app_settings import defaults
+        err = []
+        try:
+            allowed, forbidden = defaults.static_files_allowed, defaults.static_files_forbidden
+            for name, lst in (("static_files_allowed", allowed), ("static_files_forbidden", forbidden)):
+                if not isinstance(lst, (list, tuple)) or not all(isinstance(x, str) for x in lst):
+                    err.append("defaults.%s is not a list of suffix strings: %.300r" % (name, lst))
+        except Exception as e:  # noqa
+            err.append("cannot read defaults: %r" % (e,))
+        if err:
+            da, df = documented_defaults()
+            _CACHE["v"] = (da, df, "; ".join(err))
+        else:
+            _CACHE["v"] = (list(allowed), list(forbidden), "")
+    return _CACHE["v"]
+
 
 @generator
 def gen_C17():
     import djsetup
     from django_components import finders
-    from django_components.app_settings import defaults
-    allowed, forbidden = defaults.static_files_allowed, defaults.static_files_forbidden
-    for name, lst in (("static_files_allowed", allowed), ("static_files_forbidden", forbidden)):
-        if not isinstance(lst, (list, tuple)) or not all(isinstance(x, str) for x in lst):
-            raise C.HarnessError("gen_C17: defaults.%s is not a list of str: %r" % (name, lst))
+    allowed, forbidden, error = default_lists()
 
     compiled = []
 
@@ -40,6 +84,8 @@ def gen_C17():
         with djsetup.components_settings(static_files_allowed=[PROBE], static_files_forbidden=[]):
             f = finders.ComponentsFileSystemFinder.__new__(finders.ComponentsFileSystemFinder)
             f._is_path_valid("x")
+    except Exception as e:  # noqa
+        compiled.append(("<probe raised %r>" % (e,), -1))
     finally:
         finders.re = old
     texts = sorted({p for p, fl in compiled if isinstance(p, str)})
@@ -48,4 +94,6 @@ def gen_C17():
     return ("Definition default_allowed : list str := %s.\n"
             "Definition default_forbidden : list str := %s.\n"
             "Definition suffix_regex_probe : str := %s.\n"
-            % (coq_str_list(allowed), coq_str_list(forbidden), C.cstr(probe)))
+            "(* empty unless the generator met an unexpected shape in /repo (then the lists above are the DOCUMENTED defaults) *)\n"
+            "Definition generator_error : str := %s.\n"
+            % (coq_str_list(allowed), coq_str_list(forbidden), C.cstr(probe), C.cstr(error)))
